@@ -716,10 +716,19 @@ fn gensweep_cmd(args: &[String]) -> Value {
         w.write(&rec(k));
         let after = file_state(&path).gen;
         let during: Vec<u16> = inflight.borrow().clone();
-        // second update in a row
+        // second update in a row: the SAME record except for its status (what the daemon publishes when chronyd goes
+        // silent), or the identical record - the generation protocol does not depend on what is published
         inflight.borrow_mut().clear();
-        k += 1;
-        w.write(&rec(k));
+        {
+            let ts = libc::timespec { tv_sec: k as i64, tv_nsec: k as i64 };
+            let st = match (g % 3, status_of(k)) {
+                (0, s) => s, // identical record
+                (_, clock_bound_shm::ClockStatus::Unknown) => clock_bound_shm::ClockStatus::FreeRunning,
+                (_, clock_bound_shm::ClockStatus::Synchronized) => clock_bound_shm::ClockStatus::FreeRunning,
+                (_, clock_bound_shm::ClockStatus::FreeRunning) => clock_bound_shm::ClockStatus::Unknown,
+            };
+            w.write(&clock_bound_shm::ClockErrorBound::new(ts, ts, k as i64, k as u32, k as u32, st));
+        }
         let after2 = file_state(&path).gen;
         let during2: Vec<u16> = inflight.borrow().clone();
         let mut why = vec![];
@@ -738,7 +747,7 @@ fn gensweep_cmd(args: &[String]) -> Value {
         if after == g {
             why.push("generation unchanged by the update".to_string());
         }
-        if during2.iter().any(|d| d % 2 != 1) || after2 % 2 != 0 || after2 == 0 || after2 == after {
+        if during2.is_empty() || during2.iter().any(|d| d % 2 != 1) || after2 % 2 != 0 || after2 == 0 || after2 == after {
             why.push(format!("second update: in flight {:?}, after {after2}", during2));
         }
         if rows.len() < 3 || g >= 65533 {
